@@ -117,6 +117,39 @@ example : Inv (run thr demoTable demoHistory) ∧ (run thr demoTable demoHistory
     [[.int 2, .int 20, .int 7], [.int 3, .int 30, .null]] :=
   ⟨C10_history_from_create _ _ _ _ _ _, by decide⟩
 
+/-- ALTER TABLE ADD CHECK evaluates the predicate on every stored row separately (`checkAllRows` is a
+plain recursion over the row list: no state is carried from one row to the next), so an accepted
+ALTER means the predicate is not FALSE — and evaluates — on *every* stored row, whatever its position;
+a rejected one leaves the table as it was. -/
+theorem C10_add_check_accepted_all_rows (t : Table) (c : Expr) (n : Nat) (h : (t.addCheck c).2 = .ok n) :
+    (∀ r ∈ t.rows, ∃ v, c.eval r = .ok v ∧ v ≠ Value.bool false) ∧ (t.addCheck c).1.checks = t.checks ++ [c] := by
+  unfold Table.addCheck at h ⊢
+  split at h
+  · simp at h
+  · rename_i hok
+    refine ⟨?_, by simp [hok]⟩
+    intro r hr
+    have := checkAllRows_ok c t.rows hok r hr
+    unfold Table.checkChecks at this
+    split at this
+    · simp at this
+    · rename_i v hv
+      split at this
+      · simp at this
+      · rename_i hne
+        exact ⟨v, hv, by simpa using hne⟩
+
+theorem C10_add_check_rejected_unchanged (t : Table) (c : Expr) (e : DErr) (h : (t.addCheck c).2 = .err e) :
+    (t.addCheck c).1 = t := by
+  unfold Table.addCheck at h ⊢
+  split
+  · rfl
+  · rename_i hok; simp [hok] at h
+
+/-- the violating row may sit anywhere: first row fine, third row violating -/
+example : (Table.addCheck { demoTable with rows := [[.int 1, .int 2, .null], [.int 2, .int 3, .null], [.int 3, .int 9, .null]] }
+    (Expr.between (.col 1) (.lit (.int 1)) (.lit (.int 5)) false)).2 = .err .constraint := by decide
+
 /-! the repaired defects, as theorems about the code before the repair -/
 
 /-- Skipping the existing-row lookup while the tracker is active (bulk_transfer before the
